@@ -201,7 +201,7 @@ function runOp(name, r, s, k, V){
 }
 
 // go(V, s, ops, allStarts, onlyK) -> dump of the reference variant; lastBads = JSON list of mismatches (one per kind/op/variant pair) or ""
-G.go = function(V, s, ops, allStarts, onlyK){
+G.go = function(V, s, ops, allStarts, onlyK, beyond){
   var L = s.length;
   var out = "";
   var maxk = !allStarts ? 0 : V.gy ? L + 1 : 1;
@@ -219,6 +219,10 @@ G.go = function(V, s, ops, allStarts, onlyK){
     for (var oi = 0; oi < ops.length; oi++) {
       var name = ops[oi];
       if (name === "split" && k > 1) continue; // split never reads lastIndex: starts 0 and 1 suffice
+      // a sticky non-global replace from lastIndex > length hands an out-of-range start to regexp2 on the pinned tree:
+      // Go panic for most patterns (listed finding, reached by the corpus) but an endless native loop for some (/$^/y),
+      // which nothing can interrupt; the rings leave this cell out unless asked (beyond).
+      if (!beyond && k > L && V.y && !V.g && (name === "replaceStr" || name === "replaceFn")) continue;
       var ref = null;
       for (var vi = 0; vi < V.vs.length; vi++) {
         var before = execLog;
